@@ -273,7 +273,7 @@ def base_terms_rule(ctx):
 
 
 # ---------------------------------------------------------------------------------------
-# C04 SLP-ASSEMBLE / NOISE-SRC / CTX-PAIR
+# C04 SLP-ASSEMBLE / NOISE-SRC / SLP-CTX
 # ---------------------------------------------------------------------------------------
 
 
@@ -443,76 +443,6 @@ def slp_ctx_rule(ctx):
 
 
 REPLICATE_OK = ("repeat_rows", "repeat_interleave")
-
-
-def ctx_pair_rule(ctx):
-    """Row/context pairing where a [rows, n, ...] tensor is merged to [rows*n, ...]."""
-    p = ctx.p
-    res = RuleResult("CTX-PAIR", "context rows are replicated row-major (repeat_rows / repeat_interleave(dim=0)) to match merged [rows, n] tensors, and results are split back as [rows, n]")
-    targets = [
-        _flow(p).methods.get("_sample"),
-        _flow(p).methods.get("sample_and_log_prob"),
-        _dist(p).methods.get("sample_and_log_prob"),
-        p.find_class("ConditionalDiagonalNormal", "nflows.distributions.normal").methods.get("_sample"),
-        p.find_class("ConditionalIndependentBernoulli", "nflows.distributions.discrete").methods.get("_sample"),
-        p.find_class("StandardNormal", "nflows.distributions.normal").methods.get("_sample"),
-        p.find_class("MixtureOfGaussiansMADE", "nflows.nn.nde.made").methods.get("sample"),
-    ]
-    for fi in targets:
-        if fi is None:
-            raise AnalysisIncomplete("CTX-PAIR anchor function missing")
-        n_rep = n_split = 0
-        for node in ast.walk(fi.node):
-            if not isinstance(node, ast.Call):
-                continue
-            f = norm_text(node.func)
-            last = f.split(".")[-1]
-            nsamp = lambda e: e is not None and "num_samples" in norm_text(e)
-            if last == "repeat_rows":
-                reps = _kwarg(node, "num_reps", 1)
-                n_rep += 1
-                if nsamp(reps):
-                    res.ok("%s: %s" % (fi.qualname, norm_text(node)[:60]))
-                else:
-                    res.fail(Finding("CTX-PAIR", fi.module, fi.qualname, node, "rows must be repeated num_samples times"))
-            elif last == "repeat_interleave":
-                n_rep += 1
-                d = _kwarg(node, "dim", 2 if f.startswith("torch.") else 1)
-                if d is not None and const_number(d) == 0:
-                    res.ok("%s: %s" % (fi.qualname, norm_text(node)[:60]))
-                else:
-                    res.fail(Finding("CTX-PAIR", fi.module, fi.qualname, node, "repeat_interleave must repeat along dim=0 to keep each context row's samples contiguous"))
-            elif last in ("repeat", "tile") and isinstance(node.func, ast.Attribute) and node.args and nsamp(node.args[0] if not isinstance(node.args[0], (ast.Tuple, ast.List)) else node.args[0].elts[0]):
-                n_rep += 1
-                res.fail(Finding("CTX-PAIR", fi.module, fi.qualname, node, "`%s` tiles the whole block num_samples times (row order r0,r1,..,r0,r1,..) while the merged samples are ordered row-major (r0,r0,..,r1,r1,..): samples are paired with the wrong context rows" % last))
-            elif last == "cat" and node.args and isinstance(node.args[0], ast.BinOp) and isinstance(node.args[0].op, ast.Mult) and (nsamp(node.args[0].right) or nsamp(node.args[0].left)):
-                n_rep += 1
-                res.fail(Finding("CTX-PAIR", fi.module, fi.qualname, node, "torch.cat([ctx] * num_samples) tiles the block; the merged samples are ordered row-major"))
-            elif last == "split_leading_dim":
-                shp = _kwarg(node, "shape", 1)
-                n_split += 1
-                if isinstance(shp, (ast.List, ast.Tuple)) and len(shp.elts) == 2:
-                    a, b = shp.elts
-                    if nsamp(b) and not nsamp(a):
-                        res.ok("%s: %s" % (fi.qualname, norm_text(node)[:60]))
-                    else:
-                        res.fail(Finding("CTX-PAIR", fi.module, fi.qualname, node, "the merged leading dimension must be split as [context rows, num_samples]; found %s" % norm_text(shp)))
-                else:
-                    res.undecide("%s `%s`" % (fi.qualname, norm_text(node)[:50]), "shape is not a 2-element list")
-            elif last in ("reshape", "view") and any(nsamp(a) for a in node.args) and fi.name in ("sample", "_sample"):
-                args = node.args[1:] if f.startswith("torch.") else node.args
-                if len(args) == 1 and isinstance(args[0], (ast.Tuple, ast.List)):
-                    args = args[0].elts
-                n_split += 1
-                if len(args) >= 2 and nsamp(args[1]) and not nsamp(args[0]):
-                    res.ok("%s: %s" % (fi.qualname, norm_text(node)[:60]))
-                else:
-                    res.fail(Finding("CTX-PAIR", fi.module, fi.qualname, node, "samples must be shaped [context rows, num_samples, ...]"))
-        if fi.name != "sample" and n_split == 0 and n_rep == 0:
-            res.undecide(fi.qualname, "no replication / split found")
-    if len(res.instances) < 12:
-        raise AnalysisIncomplete("CTX-PAIR: %d instances (< 12 confirmed by hand)" % len(res.instances))
-    return res
 
 
 # ---------------------------------------------------------------------------------------
@@ -764,7 +694,7 @@ register(
 
 register(
     "C04",
-    [slp_assemble_rule, noise_src_rule, slp_ctx_rule, ctx_pair_rule, layout_rule],
+    [slp_assemble_rule, noise_src_rule, slp_ctx_rule, layout_rule],
     "SLP-CTX: the context expression handed to the base distribution and to the transform on every returning path of "
     "Flow._log_prob, _sample and sample_and_log_prob, normalised modulo row replication, must be one single function of the "
     "context argument (today self._embedding_net(context)); a deviating entry point scores or draws under a different conditional. "
@@ -775,20 +705,18 @@ register(
     "expansion of the eight samplers: element-wise operations unify layouts (broadcasting aligns trailing axes), merge / split / "
     "reshape / repeat_rows / repeat / sub-sampler calls transform them; an order conflict (noise drawn as [n, rows] split as "
     "[rows, n], a tiled context next to row-major samples, per-row parameters broadcast onto the sample axis) is reported. "
-    "CTX-PAIR: in the seven functions that merge a [rows, n] leading pair, the context/parameters are replicated row-major "
-    "(repeat_rows(., num_samples) or repeat_interleave(dim=0); .repeat / tile / cat([ctx]*n) are definite errors) and results "
-    "are split back as [rows|-1, num_samples]. The statistical half (samples follow exp(log_prob)) is out of reach.",
+    "(LEAD-LAYOUT replaces round 1's syntactic CTX-PAIR lint.) The statistical half (samples follow exp(log_prob)) is out of reach.",
     [A_API, T_OPS, "repeat_rows / merge_leading_dims / split_leading_dim behave as specified (C20 UT-RESHAPE)"],
 )
 
 register(
     "C18",
-    [arg_check_rule, batch_rule, sample_shape_rule, ctx_pair_rule, layout_rule],
+    [arg_check_rule, batch_rule, sample_shape_rule, layout_rule],
     "ARG-CHECK: guard dominance in Distribution.log_prob (ValueError under context is not None and differing row counts, before "
     "_log_prob) and Distribution.sample (TypeError unless typechecks.is_positive_int(num_samples / batch_size), before any use). "
     "BATCH-CAT: on each batched path of sample the concatenation axis must be the sample axis -- 0 exactly when context is None, "
     "1 otherwise -- decided from the path condition or a conditional dim; a constant dim under a path condition that does not "
     "decide `context is None` is wrong for one of the two cases. BATCH-COUNT: normal-form comparison of the full-batch "
-    "comprehension and the remainder batch. SAMPLE-SHAPE / CTX-PAIR: every sampler returns [rows, num_samples, ...].",
+    "comprehension and the remainder batch. SAMPLE-SHAPE / LEAD-LAYOUT: every sampler returns [rows, num_samples, ...].",
     [A_API, "typechecks.is_positive_int is as specified (C20 UT-PRED)"],
 )
